@@ -227,6 +227,26 @@ def okProgB (h : List Nat) : List Op → Bool
   | .put n :: rest => 0 < h.getD n 0 && okProgB (h.set n (h.getD n 0 - 1)) rest
   | .work n :: rest => 0 < h.getD n 0 && okProgB h rest
 
+/-- a well-formed trace (newest first): no operation on a node comes after a put on that node that
+observed 0 - i.e. the put that tears a node down is the last operation on it -/
+def okTrace : List Ev → Prop
+  | [] => True
+  | e :: older => zeroPutsOn older e.op.node = 0 ∧ okTrace older
+
+/-- `Start c0 H0`: `c0` is an initial configuration in which thread `t` owns `H0 t n` references to node
+`n`: every counter equals the number of references handed out, every program respects ownership, nothing
+has run yet, and the counters cannot overflow (`bound`: references owned plus gets still to come stay
+below 2^32 - the assert in json_object_get checks this at run time). -/
+structure Start (c0 : Cfg) (H0 : Nat → Nat → Nat) : Prop where
+  nofault : c0.fault = none
+  notrace : c0.trace = []
+  pcs : ∀ (t : Nat) (th : Thread), c0.threads[t]? = some th → th.pc = Pc.start
+  ok : ∀ t, t < c0.threads.length → OkProg (H0 t) (progAt c0 t)
+  dom : ∀ t n, 0 < H0 t n → t < c0.threads.length ∧ n < c0.nodes.length
+  cnt : ∀ n, n < c0.nodes.length → cntAt c0 n = sumTo c0.threads.length (fun t => H0 t n)
+  fresh : ∀ n, n < c0.nodes.length → destroyedAt c0 n = 0
+  bound : ∀ n, n < c0.nodes.length → sumTo c0.threads.length (fun t => H0 t n + getsIn (progAt c0 t) n) < U32
+
 /-! ### the hash seed -/
 
 inductive SPc where
